@@ -77,7 +77,9 @@ type Case struct {
 	Then []Layer `json:"then,omitempty"`
 }
 
-var defaultPaths = []string{".", "a", "d", "d/x", "d/y", "e", "e/z", "nope", "d/nope", "a/nope"}
+// (the last five are other spellings of names that exist in some layers: not valid fs.FS paths,
+// so they are present in no layer)
+var defaultPaths = []string{".", "a", "d", "d/x", "d/y", "e", "e/z", "nope", "d/nope", "a/nope", "./a", "d/", "/a", "d//x", "d/../a"}
 var defaultPatterns = []string{"*", "*/*", "d/*", "?", "[ad]*", "a", "d/x", "e/?", "nope*", "[", "*/x"}
 
 // closure adds implied parent directories to a layer description.
@@ -528,7 +530,7 @@ func checkStack(c Case, o *vuego.OverlayFS) error {
 			_ = f.Close()
 		}
 		// a file below a directory, reached through fs.Sub of the overlay
-		if i := strings.LastIndex(p, "/"); i > 0 {
+		if i := strings.LastIndex(p, "/"); i > 0 && fs.ValidPath(p) {
 			sub, err := fs.Sub(o, p[:i])
 			if err != nil {
 				return fmt.Errorf("fs.Sub(overlay, %q): %v", p[:i], err)
